@@ -6,3 +6,4 @@ from . import base58  # noqa
 from . import bip143  # noqa
 from . import block  # noqa
 from . import script  # noqa
+from . import p2p  # noqa
